@@ -49,6 +49,23 @@ func (ex *Exec) learnBounds(c *Term) {
 		return
 	case "bvslt", "bvsle", "bvsgt", "bvsge":
 		ex.learnCmp(c.op, c.args[0], c.args[1])
+	case "bvuge", "bvule":
+		// wide (time) terms compared with constants that fit in int63
+		x, k := c.args[0], c.args[1]
+		if x.sort.K == SBV && x.sort.W > 64 && k.IsConst() && !x.IsConst() && k.UBig().IsInt64() {
+			v := k.UBig().Int64()
+			b := ex.boundOf(x)
+			if _, seen := ex.bounds[x.id]; !seen {
+				b = ival{0, maxI64}
+			}
+			if c.op == "bvuge" && v > b.lo {
+				b.lo = v
+			}
+			if c.op == "bvule" && v < b.hi {
+				b.hi = v
+			}
+			ex.bounds[x.id] = b
+		}
 	case "=":
 		x, k := c.args[0], c.args[1]
 		if x.IsConst() {
@@ -145,12 +162,32 @@ func addOv(a, b int64) (int64, bool) {
 // rangeOf computes a signed interval for a 64-bit term from learnt facts and structure.
 func (ex *Exec) rangeOf(t *Term, depth int) ival {
 	full := ival{minI64, maxI64}
-	if t.sort.K != SBV || t.sort.W != 64 {
+	if t.sort.K != SBV {
+		return full
+	}
+	if t.sort.W > 64 {
+		return ex.rangeWide(t, depth)
+	}
+	if t.sort.W != 64 {
 		return full
 	}
 	if t.IsConst() {
 		v := signExt(t.u, 64)
 		return ival{v, v}
+	}
+	if t.op == "extract" && t.p2 == 0 && t.p1 == 63 && t.args[0].sort.W > 64 {
+		a := ex.rangeWide(t.args[0], depth+1)
+		if a != full && a.lo >= 0 {
+			if b, ok := ex.bounds[t.id]; ok {
+				if b.lo > a.lo {
+					a.lo = b.lo
+				}
+				if b.hi < a.hi {
+					a.hi = b.hi
+				}
+			}
+			return a
+		}
 	}
 	r := full
 	if depth < 12 {
@@ -183,6 +220,8 @@ func (ex *Exec) rangeOf(t *Term, depth int) ival {
 			a, b := ex.rangeOf(t.args[0], depth+1), ex.rangeOf(t.args[1], depth+1)
 			if a.lo >= 0 && b.lo >= 1 {
 				r = ival{0, min(a.hi, b.hi-1)}
+			} else if b.lo >= 1 && b.hi < maxI64 {
+				r = ival{-(b.hi - 1), b.hi - 1}
 			}
 		case "bvsdiv":
 			a, b := ex.rangeOf(t.args[0], depth+1), ex.rangeOf(t.args[1], depth+1)
@@ -198,6 +237,10 @@ func (ex *Exec) rangeOf(t *Term, depth int) ival {
 			w := t.args[0].sort.W
 			if w < 63 {
 				r = ival{0, int64(1)<<uint(w) - 1}
+				in := t.args[0]
+				if in.op == "bvurem" && in.args[1].IsConst() && !in.args[1].isZero() && in.args[1].u-1 < uint64(r.hi) {
+					r.hi = int64(in.args[1].u - 1)
+				}
 			}
 		}
 	}
@@ -227,11 +270,20 @@ func (ex *Exec) narrowDivRem(rem bool, a, b *Term) *Term {
 		return nil
 	}
 	ra, rb := ex.rangeOf(a, 0), ex.rangeOf(b, 0)
-	if ra.lo < 0 || rb.lo < 1 || ra.hi >= 1<<30 || rb.hi >= 1<<30 {
+	if ra.lo < 0 || rb.lo < 1 || ra.hi >= 1<<44 || rb.hi >= 1<<44 {
 		return nil
 	}
-	k := bitsFor(max(ra.hi, rb.hi))
 	tc := ex.tc
+	if rem && b.IsConst() && ra.lo > 0 {
+		// a % d == (a - L) % d for L a multiple of d below the lower bound of a
+		d := signExt(b.u, 64)
+		L := ra.lo / d * d
+		if L > 0 {
+			a = tc.Sub(a, tc.Int64(L))
+			ra = ival{ra.lo - L, ra.hi - L}
+		}
+	}
+	k := bitsFor(max(ra.hi, rb.hi))
 	an, bn := tc.Extract(a, k-1, 0), tc.Extract(b, k-1, 0)
 	if rem {
 		return tc.ZeroExt(tc.URem(an, bn), 64)
@@ -314,4 +366,88 @@ func (ex *Exec) to64(t *Term) (*Term, bool) {
 		return nil, false
 	}
 	return conv(t, 0)
+}
+
+// rangeWide: interval of a wide (time) term, as a mathematical integer, when it is known
+// to lie within [0, 2^62]; the full interval otherwise.
+func (ex *Exec) rangeWide(t *Term, depth int) ival {
+	full := ival{minI64, maxI64}
+	ok := func(r ival) bool { return r != full && r.lo >= 0 && r.hi <= 1<<62 }
+	if t.IsConst() {
+		v := t.UBig()
+		if v.IsInt64() && v.Int64() <= 1<<62 {
+			return ival{v.Int64(), v.Int64()}
+		}
+		return full
+	}
+	r := full
+	if depth < 12 {
+		switch t.op {
+		case "bvadd", "bvsub":
+			a, b := ex.rangeWideS(t.args[0], depth+1), ex.rangeWideS(t.args[1], depth+1)
+			if a != full && b != full {
+				if t.op == "bvadd" {
+					r = ival{a.lo + b.lo, a.hi + b.hi}
+				} else {
+					r = ival{a.lo - b.hi, a.hi - b.lo}
+				}
+			}
+		case "ite":
+			a, b := ex.rangeWide(t.args[1], depth+1), ex.rangeWide(t.args[2], depth+1)
+			if a != full && b != full {
+				r = ival{min(a.lo, b.lo), max(a.hi, b.hi)}
+			}
+		case "bvmul":
+			a, b := ex.rangeWide(t.args[0], depth+1), ex.rangeWide(t.args[1], depth+1)
+			if ok(a) && ok(b) && a.hi < 1<<31 && b.hi < 1<<31 {
+				r = ival{a.lo * b.lo, a.hi * b.hi}
+			}
+		case "zero_extend":
+			a := ex.rangeOf(t.args[0], depth+1)
+			if a.lo >= 0 && a.hi <= 1<<62 {
+				r = a
+			}
+		}
+	}
+	if b, okb := ex.bounds[t.id]; okb {
+		if r == full {
+			r = b
+		} else {
+			if b.lo > r.lo {
+				r.lo = b.lo
+			}
+			if b.hi < r.hi {
+				r.hi = b.hi
+			}
+		}
+	}
+	if !ok(r) {
+		return full
+	}
+	return r
+}
+
+// rangeWideS: like rangeWide but also accepts sign-extended (possibly negative) small terms
+func (ex *Exec) rangeWideS(t *Term, depth int) ival {
+	full := ival{minI64, maxI64}
+	if t.op == "sign_extend" && t.args[0].sort.W == 64 {
+		a := ex.rangeOf(t.args[0], depth+1)
+		if a != full && a.lo > -(1<<61) && a.hi < 1<<61 {
+			return a
+		}
+		return full
+	}
+	if t.IsConst() {
+		v := t.SBig()
+		if v.IsInt64() && v.Int64() > -(1<<61) && v.Int64() < 1<<61 {
+			return ival{v.Int64(), v.Int64()}
+		}
+	}
+	if t.op == "ite" {
+		a, b := ex.rangeWideS(t.args[1], depth+1), ex.rangeWideS(t.args[2], depth+1)
+		if a != full && b != full {
+			return ival{min(a.lo, b.lo), max(a.hi, b.hi)}
+		}
+	}
+	return ex.rangeWide(t, depth)
 }
